@@ -102,8 +102,7 @@ def symbolic_leg(e: Engine, P: Dict[str, Any], gcm: _GcModel) -> Optional[Dict[s
     next_inner = None
     if exiting is not None:
         d = dummies[wmap[exiting][0]]
-        fn = stubs.DummyManager.__aexit__ if an.with_offsets[exiting] else stubs.DummyManager.__exit__
-        next_inner = stubs.FakeFrame(fn.__code__, 0, {"self": d, "exc": ()})
+        next_inner = stubs.exit_frame_for(d, an.with_offsets[exiting])
     with warnings.catch_warnings(record=True) as w:
         warnings.simplefilter("always")
         with contextlib.redirect_stderr(io.StringIO()):
@@ -172,7 +171,7 @@ def _shard1(sh: Dict[str, Any]) -> Dict[str, Any]:
                 for ob in dyn.observe_all(src, desc["kind"], trickery=False):
                     if "driver_error" in ob or "stack" not in ob:
                         continue
-                    smeth = [r for r in ob["stack"] if isinstance(r, types.MethodType) and r.__func__.__name__ in ("__exit__", "__aexit__")]
+                    smeth = [r for r in ob["stack"] if dyn.is_exit_method(r)]
                     if [id(x.__self__) for x in smeth] != [id(x.__self__) for x in ob.get("referent_exits", [])]:
                         crash = f"collector model wrong at lasti={ob['lasti']} of\n{src}"
                         break
@@ -317,10 +316,11 @@ def fault_case(pi: int, k: Any) -> Dict[str, Any]:
 def truth_judgement(ob: Any, got: List[Tuple[Any, bool, bool]], async_of: Dict[int, bool]) -> Optional[str]:
     """The C20 property for one REAL suspension: result vs the managers' event log."""
     import gc
+    from vlib.bc import dyn
 
     ent = [(m, async_of[m.i]) for m in ob.active if m is not ob.exiting]
     exi = (ob.exiting, async_of[ob.exiting.i]) if ob.exiting else None
-    refs = [r for r in gc.get_referents(ob.gen) if isinstance(r, types.MethodType) and r.__func__.__name__ in ("__exit__", "__aexit__")]
+    refs = [r for r in gc.get_referents(ob.gen) if dyn.is_exit_method(r)]
     trans = [r.__self__ for r in refs if not any(r.__self__ is m for m, _ in ent)]
     return judge_referents(got, ent, exi, trans)
 
